@@ -141,19 +141,148 @@ theorem round_events_indep (rule : Rule) (s s' : Sock) (r : Round) :
 
 /-! ### results -/
 
-/-- **new rule: a request received in time is answered exactly once, for every handler duration**
-    (`inTime` with `t0 ≤ arrive` implies `0 < T`) -/
-theorem C03K_new_always_answers (s : Sock) (r : Round) (h : r.inTime) :
+def isResponded : Ev → Bool | .responded _ => true | _ => false
+def isHandler : Ev → Bool | .handler _ => true | _ => false
+
+/-- **new rule: a request received in time (`t0 ≤ arrive < t0 + T`, hence `0 < T`) is answered exactly
+    once, at the instant the handler returns, for EVERY handler duration and whatever socket state the
+    round inherits** -/
+theorem C03K_new_always_answers (s : Sock) (r : Round) (h0 : r.t0 ≤ r.arrive) (h : r.inTime) :
     (round .new s r).2 = [.handler r.arrive, .responded (r.arrive + r.handler)] ∧
-    0 < r.T ∧
-    ((round .new s r).2.filter (fun e => match e with | .responded _ => true | _ => false)).length = 1 ∧
-    respondNew r = [.handler r.arrive, .responded (r.arrive + r.handler)] := by
-  have hT : 0 < r.T := by
-    unfold Round.inTime at h
-    by_cases h0 : r.T = 0
-    · have : r.t0 ≤ r.arrive ∨ r.arrive < r.t0 := Nat.le_or_lt _ _
-      omega_nat_fallback
-    · omega
-  sorry
+    respondNew r = [.handler r.arrive, .responded (r.arrive + r.handler)] ∧
+    ((round .new s r).2.filter isResponded).length = 1 ∧
+    ((round .new s r).2.filter isHandler).length = 1 := by
+  unfold Round.inTime at h
+  have hT : r.arrive + r.handler < r.arrive + r.handler + r.T := by omega
+  have e : ∀ s, (round .new s r).2 = [.handler r.arrive, .responded (r.arrive + r.handler)] := by
+    intro s; rw [round_eq]; simp [h, hT]
+  refine ⟨e s, e _, ?_, ?_⟩ <;> rw [e] <;> rfl
+
+/-- the same with the hypothesis `0 < T` instead of `t0 ≤ arrive` -/
+theorem C03K_new_always_answers' (s : Sock) (r : Round) (hT : 0 < r.T) (h : r.inTime) :
+    (round .new s r).2 = [.handler r.arrive, .responded (r.arrive + r.handler)] := by
+  unfold Round.inTime at h
+  have hT' : r.arrive + r.handler < r.arrive + r.handler + r.T := by omega
+  rw [round_eq]; simp [h, hT']
+
+/-- **old rule: for a request received in time the handler is called, and the response is written IFF
+    the handler returns strictly before the idle deadline `t0 + T`; otherwise it is dropped** -/
+theorem C03K_old_drops_late_completion (s : Sock) (r : Round) (h : r.inTime) :
+    (round .old s r).2 =
+      [.handler r.arrive,
+       if r.arrive + r.handler < r.t0 + r.T then .responded (r.arrive + r.handler)
+       else .dropped (r.arrive + r.handler)] ∧
+    (Ev.responded (r.arrive + r.handler) ∈ (round .old s r).2 ↔ r.arrive + r.handler < r.t0 + r.T) ∧
+    (Ev.dropped (r.arrive + r.handler) ∈ (round .old s r).2 ↔ r.t0 + r.T ≤ r.arrive + r.handler) ∧
+    ((round .old s r).2.filter isResponded).length =
+      (if r.arrive + r.handler < r.t0 + r.T then 1 else 0) ∧
+    ((round .old s r).2.filter isHandler).length = 1 := by
+  unfold Round.inTime at h
+  by_cases h2 : r.arrive + r.handler < r.t0 + r.T
+  · have e : (round .old s r).2 = [.handler r.arrive, .responded (r.arrive + r.handler)] := by
+      rw [round_eq]; simp [h, h2]
+    rw [e]
+    refine ⟨by simp [h2], by simp [h2], ?_, by rw [if_pos h2]; rfl, rfl⟩
+    simp; omega
+  · have e : (round .old s r).2 = [.handler r.arrive, .dropped (r.arrive + r.handler)] := by
+      rw [round_eq]; simp [h, h2]
+    rw [e]
+    refine ⟨by simp [h2], by simp [h2], ?_, by rw [if_neg h2]; rfl, rfl⟩
+    simp; omega
+
+/-- **the reproduced case** (times in ms): idle timeout 300, `ReadRequest` at 0, request complete at
+    219, handler 120. Old rule: the handler is called, the response is dropped at 339. New rule: the
+    response is written at 339. -/
+theorem C03K_old_counterexample :
+    respondOld ⟨0, 300, 219, 120⟩ = [.handler 219, .dropped 339] ∧
+    respondNew ⟨0, 300, 219, 120⟩ = [.handler 219, .responded 339] := by
+  decide
+
+/-- **the idle release is the same under both rules.** Nothing arrives: released at exactly `t0 + T`,
+    no handler call. A request not complete before `t0 + T`: the same. A request in time: no release in
+    this round. And `WriteResponse` never changes the READ deadline (old: nothing changes; new: only the
+    write deadline), so the repair cannot lengthen the idle window. -/
+theorem C03K_idle_release_unchanged (rule : Rule) (s : Sock) (T t0 : Nat) (r : Round) (x : Nat) :
+    (idleRound T t0 s).2 = [.released (t0 + T)] ∧
+    (¬ r.inTime → (round rule s r).2 = [.released (r.t0 + r.T)]) ∧
+    (r.inTime → ∀ d, Ev.released d ∉ (round rule s r).2) ∧
+    ((round rule s r).2 = [.released (r.t0 + r.T)] ↔ ¬ r.inTime) ∧
+    (writeResponse rule T x s).1.rd = s.rd := by
+  have hnot : ¬ r.inTime → (round rule s r).2 = [.released (r.t0 + r.T)] := by
+    intro h; unfold Round.inTime at h; rw [round_eq]; simp [h]
+  have hin : r.inTime → ∀ d, Ev.released d ∉ (round rule s r).2 := by
+    intro h d; unfold Round.inTime at h
+    rw [round_eq]; simp only [h, ↓reduceIte]
+    cases rule <;> (dsimp only; split <;> simp)
+  refine ⟨rfl, hnot, hin, ⟨fun e h => ?_, hnot⟩, ?_⟩
+  · have := hin h (r.t0 + r.T); rw [e] at this; simp at this
+  · cases rule <;> rfl
+
+/-- **the next round's deadline.** Whatever the previous round `r1` did, under whichever rule, from
+    whatever socket state: the next `ReadRequest`, run at `t0'`, leaves the read AND the write deadline at
+    `t0' + T` (it arms `SetDeadline`, both directions), so the socket after the next round's read and
+    the events of the next round `r2` are the same under both histories. -/
+theorem C03K_next_round_deadline (rule1 rule2 : Rule) (s : Sock) (r1 r2 : Round) (a : Option Nat) :
+    let s1 := (round rule1 s r1).1
+    (readRequest r2.T r2.t0 s1 a).1 = ⟨r2.t0 + r2.T, r2.t0 + r2.T⟩ ∧
+    (round rule2 s1 r2).2 = (round rule2 s r2).2 ∧
+    (round rule2 (round .old s r1).1 r2).2 = (round rule2 (round .new s r1).1 r2).2 := by
+  intro s1
+  refine ⟨?_, round_events_indep _ _ _ _, round_events_indep _ _ _ _⟩
+  unfold readRequest Sock.setDeadline
+  cases a with
+  | none => rfl
+  | some v => dsimp only; split <;> rfl
+
+/-- a session: the rounds in order, each starting from the socket the previous one left; it ends at
+    the first release -/
+def session (rule : Rule) : Sock → List Round → List Ev
+  | _, [] => []
+  | s, r :: rest =>
+    if r.inTime then (round rule s r).2 ++ session rule (round rule s r).1 rest
+    else (round rule s r).2
+
+/-- **a whole session under the new rule**: if every request is received in time, every request gets
+    one handler call and one response, in order -/
+theorem C03K_session_new_all_answered : ∀ (rs : List Round) (s : Sock),
+    (∀ r ∈ rs, r.t0 ≤ r.arrive ∧ r.inTime) →
+    session .new s rs =
+      (rs.map (fun r => [Ev.handler r.arrive, Ev.responded (r.arrive + r.handler)])).flatten := by
+  intro rs
+  induction rs with
+  | nil => intro s _; rfl
+  | cons r rest ih =>
+    intro s h
+    have hr := h r (by simp)
+    simp only [session, hr.2, ↓reduceIte, List.map_cons, List.flatten_cons]
+    rw [(C03K_new_always_answers s r hr.1 hr.2).1, ih _ (fun x hx => h x (by simp [hx]))]
+
+/-- the rule a `WriteResponse`-like term follows: `new` iff its calls are `SetWriteDeadline`, `Write` -/
+def ruleOf (gs : GStmt) : Rule :=
+  if (callTextsOfW gs).map (·.2.1) = ["tt.socket.SetWriteDeadline", "tt.socket.Write"] then .new else .old
+
+/-- **static tie to the source terms**: the current `WriteResponse` follows the new rule, the term of
+    before d1a97bc (`wrNoDeadline`, the current term minus the deadline call and its error test) the old
+    one — its only call is the `Write`; `ReadRequest` arms `SetDeadline` (read and write) first; both
+    deadlines are `time.Now().Add(tt.timeout)`: the same `T`. -/
+theorem C03K_source_tie :
+    ruleOf gs_tcpTransport_WriteResponse = .new ∧
+    ruleOf wrNoDeadline = .old ∧
+    (callTextsOfW wrNoDeadline).map (·.2.1) = ["tt.socket.Write"] ∧
+    (callTextsOfW gs_tcpTransport_WriteResponse).map (fun c => (c.2.1, c.2.2)) =
+      [("tt.socket.SetWriteDeadline", [some "time.Now().Add(tt.timeout)"]),
+       ("tt.socket.Write", [some "tt.assembleMBAPFrame(tt.lastTxnId, res)"])] ∧
+    (callTextsOfW gs_tcpTransport_ReadRequest).map (fun c => (c.2.1, c.2.2)) =
+      [("tt.socket.SetDeadline", [some "time.Now().Add(tt.timeout)"]), ("tt.readMBAPFrame", [])] := by
+  refine ⟨by decide +kernel, by decide +kernel, by decide +kernel, by decide +kernel, by decide +kernel⟩
 
 end Modbus.Props.C03
+
+#print axioms Modbus.Props.C03.C03K_new_always_answers
+#print axioms Modbus.Props.C03.C03K_new_always_answers'
+#print axioms Modbus.Props.C03.C03K_old_drops_late_completion
+#print axioms Modbus.Props.C03.C03K_old_counterexample
+#print axioms Modbus.Props.C03.C03K_idle_release_unchanged
+#print axioms Modbus.Props.C03.C03K_next_round_deadline
+#print axioms Modbus.Props.C03.C03K_session_new_all_answered
+#print axioms Modbus.Props.C03.C03K_source_tie
